@@ -88,8 +88,8 @@ reg(P(
 
 reg(P(
     "C05", "Forward compatibility: an older schema decodes data from an extended one",
-    [("D3", ALL), ("C3", ALL), ("EC3", ALL)],
-    "in the six extensible processors (message and array x Python/Go/C): the start position is read before the prefix, the prefix is written on encode and read on decode under `extensible`, children run in order, the cursor moves only when decoding, every forward move passes the guard, and the skip target is start + sender-bits for messages and start + 16 + sender-capacity x bits-per-element for arrays (D3, EC3); what the sender writes (nbits / capacity, 16 bits, scratch field number 1) is what the receiver reads (C3).",
+    [("D3", ALL), ("C3", ALL), ("EC3", ALL), ("C1", {"prefix-range"})],
+    "in the six extensible processors (message and array x Python/Go/C): the start position is read before the prefix, the prefix is written on encode and read on decode under `extensible`, children run in order, the cursor moves only when decoding, every forward move passes the guard, and the skip target is start + sender-bits for messages and start + 16 + sender-capacity x bits-per-element for arrays (D3, EC3); what the sender writes (nbits / capacity, 16 bits, scratch field number 1) is what the receiver reads (C3); the compiler rejects every message larger than 65535 bits and every array capacity above 65535, the largest numbers the 16-bit prefix can carry (C1 prefix-range).",
     "decoded values; only the position arithmetic is decided.",
 ))
 
